@@ -127,7 +127,7 @@ def run_scans(ctx, out):
             for c in listing:
                 enc += [len(c)] + list(c)
             mo = core.run_model("run_nextnum", [enc], tag="c09s")[0]
-            if line == "PANIC":
+            if line in ("PANIC", "ERR"):     # (the successor does not fit in a u64: an error since fix 381a1cc; a panic in debug builds before)
                 if not (len(mo) == 2 and mo[1] == 0):
                     out.corr("R0-next_backup_num", dict(base=repr(base), listing=[repr(x) for x in listing]), mo, line)
             else:
@@ -517,28 +517,31 @@ def run_histories(ctx, out):
             shutil.rmtree(d, ignore_errors=True)
     # ---- backup numbers at the edge of u64: a directory that already holds <name>.~18446744073709551615~ (and ...614, ...616 = one
     #      more digit than fits): whatever number is chosen next, no version the directory holds may be replaced
-    for driver in ("parfile", "parblock"):
+    rel_xcp = core.build_rust_release()      # (overflow wraps in a release build and panics in a debug build: both are run)
+    for (build, binary) in (("debug", ctx.bins["xcp"]), ("release", rel_xcp)):
+      for driver in ("parfile", "parblock"):
         for mode in ("numbered", "auto"):
             for top in (18446744073709551615, 18446744073709551614, 18446744073709551616, 9223372036854775807):
-                d = os.path.join(d0, "maxnum_%s_%s_%d" % (driver, mode, top % 1000))
+                d = os.path.join(d0, "maxnum_%s_%s_%s_%d" % (build, driver, mode, top % 1000))
                 os.makedirs(os.path.join(d, "t"))
+                open(os.path.join(d, "t", "f.~0~"), "wb").write(b"backup zero")
                 open(os.path.join(d, "f"), "wb").write(b"NEW VERSION")
                 open(os.path.join(d, "t", "f"), "wb").write(b"CURRENT VERSION")
                 open(os.path.join(d, "t", "f.~%d~" % top), "wb").write(b"OLDEST VERSION (backup %d)" % top)
                 open(os.path.join(d, "t", "f.~3~"), "wb").write(b"backup three")
                 before = dir_state(os.path.join(d, "t"))
-                argv = [ctx.bins["xcp"], "--driver", driver, "-w", "2", "--backup", mode, "f", "t/"]
+                argv = [binary, "--driver", driver, "-w", "2", "--backup", mode, "f", "t/"]
                 r = xcp.run_plain(argv, d)
                 after = dir_state(os.path.join(d, "t"))
-                out.case(("max-backup-number", driver, mode, top), True)
+                out.case(("max-backup-number", build, driver, mode, top), True)
                 out.count("backup_numbers_at_the_edge_of_u64")
-                rep = dict(kind="a backup numbered %d exists" % top, argv=argv[1:], exit=r.exit, stderr=r.stderr[-200:],
+                rep = dict(kind="a backup numbered %d exists (%s build)" % (top, build), argv=argv[1:], exit=r.exit, stderr=r.stderr[-200:],
                            before=sorted(os.fsdecode(n) for n in before), after=sorted(os.fsdecode(n) for n in after))
                 lost = [c for c in before.values() if c not in after.values()]
                 if lost:
-                    out.violation("overwrite with --backup %s next to a backup numbered %d: a version the directory held is gone (%r), exit %d"
-                                  % (mode, top, lost[0][:40], r.exit), rep)
-            shutil.rmtree(d, ignore_errors=True)
+                    out.violation("overwrite with --backup %s next to a backup numbered %d (%s build): a version the directory held is gone (%r), exit %d"
+                                  % (mode, top, build, lost[0][:40], r.exit), rep)
+                shutil.rmtree(d, ignore_errors=True)
     # ---- HISTORIES over names at the limit (251..255 bytes; two names sharing their first 251 bytes): after every step, every
     #      version the destination held before is still there (under some name) or the step was refused and changed nothing
     for driver in ("parfile", "parblock"):
@@ -582,7 +585,7 @@ def run(ctx, out):
                 "in ONE run over several sources some of which are named like numbered backups (f.~1~ copied in, then f overwritten); (c'') histories "
                 "whose destination entry is a LINK to a file elsewhere with backups beside the link; histories "
                 "whose destination is a program BEING EXECUTED (cannot be opened for writing), with and without -f/--force; "
-                "overwrites next to backups numbered 2^64-1, 2^64-2, 2^64 and 2^63-1; histories of four copies over names of 251-255 bytes (two sharing their first 251 bytes); (d) SIGKILL before/after every mutating call of one overwrite. non-trivial = candidate is a real backup or "
+                "overwrites next to backups numbered 2^64-1, 2^64-2, 2^64 and 2^63-1 with the debug AND the release build (overflow wraps there); histories of four copies over names of 251-255 bytes (two sharing their first 251 bytes); (d) SIGKILL before/after every mutating call of one overwrite. non-trivial = candidate is a real backup or "
                 "shares the first byte / directory holds a backup / step overwrites an existing file; distinct by input")
     run_pairs(ctx, out)
     run_scans(ctx, out)
